@@ -16,6 +16,7 @@ line protocol of property C12 (harness/c12.py).  Group: `Btc.EC.ops secp256k1`; 
   iss <sec|-> <T> <i>              → ok <script> <control>
   check <q> <script> <control>     → ok True|False
   const                            → the generated constants
+  pathof <T> <i>                   → ok <position bits> <v>:<script>:<path>   (the i-th leaf in tree order, positionally)
   pytree <P>                       → as `tree`, on ANY Python value (tree_helper's own guards)
   outpubpy <sec|-> <P> / outprvpy <d> <P> / isspy <sec|-> <P> <i>   → the entry points on any Python value
 T is a tree in prefix form, `;`-separated: `L.<version>.<scripthex>` | `N;<T>;<T>`.
@@ -131,6 +132,19 @@ def handle (toks : List String) : String :=
       let (ls, r) := treeHelper TH t
       s!"ok {toHex r} " ++ "|".intercalate (ls.map fun ((v, s), p) => s!"{v}:{toHex s}:{toHex p}")
     | none => "bad-op"
+  | ["pathof", t, i] =>
+    match tree? t, i.toNat? with
+    | some t, some i =>
+      match t.positions[i]? with
+      | none => "err index"
+      | some pos =>
+        match t.leafAt pos, t.flatten[i]? with
+        | some (v, s), some (v', s') =>
+          let bits := String.ofList (pos.map fun b => if b then '1' else '0')
+          if v == v' && s == s' then s!"ok {if bits.isEmpty then "_" else bits} {v}:{toHex s}:{toHex (pathOf TH t pos)}"
+          else "err flatten-disagrees"
+        | _, _ => "err no-leaf"
+    | _, _ => "bad-op"
   | ["pytree", p] =>
     match py? p with
     | some v => rTree (treeHelperPy TH v)
